@@ -90,6 +90,11 @@ impl CaoLangAllocator {
                 self.allocated.load(Ordering::Relaxed)
             );
         }
+        if l.size() == 0 {
+            // the system allocator must not be asked for zero bytes (e.g. the buffer of an empty
+            // string): hand out a well-aligned dangling pointer instead
+            return Ok(NonNull::new(l.align() as *mut u8).unwrap());
+        }
         let ptr = alloc(l);
         Ok(NonNull::new(ptr).unwrap())
     }
@@ -100,7 +105,9 @@ impl CaoLangAllocator {
     pub unsafe fn dealloc(&self, p: NonNull<u8>, l: Layout) {
         let s = l.size() + l.align();
         self.allocated.fetch_sub(s, Ordering::Relaxed);
-        dealloc(p.as_ptr(), l);
+        if l.size() != 0 {
+            dealloc(p.as_ptr(), l);
+        }
     }
 }
 
